@@ -46,6 +46,11 @@ CHECKS = {
    text="Every lookup, history and append-only proof and each component produced after every epoch of every bounded history is converted to its protobuf message and bytes and back (identity) and the decoded proof verified to the same result (incl. the wasm client's path and AuditBlob). Representative encodings are corrupted exhaustively at deviation 1 (every truncation length, every single-bit flip, every single-field deletion/duplication at every nesting level through a schema-aware wire-format editor, oversize label lengths/values, wrong-size digests and VRF proofs) and every byte string of length <=2 (thorough 3) is fed to every decoder: no panic; Err, or a proof that fails or verifies to the original result."),
  "C20": dict(cat="exploration", sec="§4 C20", tech="exhaustive enumeration of histories x labels x every tombstone cut-off epoch x manager variants x continuation publishes; real tombstone_value_states + real proofs/verifiers vs DirModel",
    text="After every epoch of every bounded history, for every label with >=2 versions and every cut-off epoch before its latest update, values are tombstoned through the directory's own manager (uncached / cached and warmed) or a second manager; storage may differ only in that label's old value records; epoch hash, all audits, own lookup and all other labels are unchanged and verify; the label's history under AllowMissingValues equals the model with exactly the replaced values empty and under Default is rejected iff the range contains a replaced entry, for Complete and every MostRecent(k); continuation publishes follow the model."),
+
+ "C14": dict(cat="exploration", sec="§4 C14", tech="exhaustive enumeration of histories x configuration variants (parallelism, cache settings under a virtual clock, restarts, read-only wrapper, two feature builds) compared with the reference configuration / model; exhaustive orders and sub-batchings at tree level; all interleavings of one publish's subtasks under the controlled scheduler",
+   text="Every bounded history is run under 14 (thorough 17) configuration variants and by a second build of the harness without akd's preload/parallel-VRF features; after every publish the epoch hash, the whole reader suite and the stored tree must equal the reference configuration. Every <=4/5-subset of an adversarial 8-label universe is inserted as every ordered partition into sub-batches within one epoch (sequential and Static(4)) and every tree cut in every order; all interleavings (<=2/3 preemptions) of the subtasks of one publish with parallel insertion/preload must give the same result and stored tree."),
+ "C18": dict(cat="exploration", sec="§4 C18", tech="exhaustive enumeration over a structured alphabet of keys x labels x freshness x versions and its deviation-1 neighbourhood (every other alphabet element substituted, every bit of the claimed label, every bit/byte of the proof), real VRF code and real lookup_verify",
+   text="3 keys x 6 labels (empty, prefix-related, 300 bytes) x 2 freshness x 8 versions across the u64 range x 2 configurations: all derivation paths agree and are deterministic, the proof verifies and yields the placed label; every single-field alteration at verification (key, label, freshness, version from the alphabet; every bit of the claimed node label; every bit and 0x00/0xff of every proof byte; wrong sizes) is rejected or yields the same label; labels and commitments are distinct across keys; directory-level lookups verify only under the right key and with unaltered/unexchanged VRF proofs. The enumeration says nothing about cryptographic soundness beyond this alphabet."),
 }
 
 def main():
@@ -70,7 +75,7 @@ def main():
             na.append({"property_id": p, "reason": NA_REASONS.get(p, "check not built yet in this round (planned: see DESIGN.md §4); not claimed until its check runs clean")})
     m = {
         "version": 1,
-        "setup_cmd": "cd /verif/harness && cp -n /repo/Cargo.lock Cargo.lock; CARGO_NET_OFFLINE=true cargo build --release --offline",
+        "setup_cmd": "cd /verif/harness && cp -n /repo/Cargo.lock Cargo.lock; CARGO_NET_OFFLINE=true cargo build --release --offline && CARGO_NET_OFFLINE=true cargo build --release --offline --no-default-features --features hooks --target-dir /verif/harness/target-nofeat",
         "hooks": {
             "guard": "cargo feature verif_hooks on crate akd",
             "enable": "the harness crate /verif/harness depends on /repo/akd by path with features [verif_hooks, public_tests, whatsapp_v1, experimental, public_auditing]; bin/check rebuilds it from /repo's working tree",
